@@ -16,11 +16,12 @@ V = engine.VERIF
 # repairs whose defect needs the checks of other properties as well
 EXTRA = {'2d891c6': ['C03', 'C01', 'C06'], '7964d8c': ['C07', 'C08'], '116982f': ['C01', 'C03'], '9b81c09': ['C01', 'C03'],
          '274e34d': ['C01', 'C06'], '304fd4d': ['C06', 'C01'], 'd6436bf': ['C01', 'C06'], '3c4837c': ['C20', 'C18'],
-         'bf7e0eb': ['C12', 'C20'], 'daef78d': ['C12'], '3f9d21b': ['C06', 'C12'], '6a498ac': ['C12', 'C20']}
+         'bf7e0eb': ['C12', 'C20'], 'daef78d': ['C12'], '3f9d21b': ['C06', 'C12'], '6a498ac': ['C12', 'C20'], 'afeeb69': ['C03', 'C04']}
 
 
 # reverting these alone is harmless on HEAD because a later repair removed the situation in which the defect showed
-NEUTRALISED = {'daef78d': 'the unclosed control socket only mattered while the server process could not exit (start-up orphan), repaired in bf7e0eb'}
+NEUTRALISED = {'a54b3b1': 'since f7b71f6 the context helper runs its (idempotent) clean-up once more when a termination request interrupts it, which also covers a child skipped by the loop; in the server the second stop request is a signal whose handler does not raise',
+               'daef78d': 'the unclosed control socket only mattered while the server process could not exit (start-up orphan), repaired in bf7e0eb'}
 
 
 def run(cmd, **kw):
